@@ -47,7 +47,14 @@ def run(e: Engine, rep: Report):
     rep.rule('Q7', 'the scan over the shared timetable contains no call '
              'that can switch greenlets')
     rep.rule('Q6', 'dispatch only under now >= timestamp, scan stops at the '
-             'first entry not due, bounded sleep until the first due time')
+             'first entry not due, bounded sleep until the first due time; '
+             'the due predicate and the sleep predicate leave no gap')
+    rep.rule('Q9', 'pool-order graph of the queue (holder of a slot of P '
+             'waits for a slot of Q) has no cycle; _pool_spawn hands the '
+             'waiting to a helper greenlet when its caller holds a slot')
+    rep.rule('Q8', 'in _retry_later every continuation of '
+             'store.set_recipients_delivered, exceptional ones included, '
+             'reaches _add_queued')
     rep.not_decided += ['real clock behaviour', 'fairness of gevent',
                         'interleavings as executions']
     q1(e, rep)
@@ -56,6 +63,9 @@ def run(e: Engine, rep: Report):
     q4(e, rep)
     q5(e, rep)
     q6(e, rep)
+    q8(e, rep)
+    from . import poolorder
+    poolorder.run(e, rep, 'Q9')
     rep.floor('Q2', 3, 'timetable writers')
 
 
@@ -493,10 +503,17 @@ def q6(e: Engine, rep: Report):
     loops = [n for n in g.of_kind('iter') if isinstance(n.ast, ast.For) and
              'self.queued' in ast.unparse(n.ast.iter)]
     spawns = [n for n in g.nodes if _spawns_dequeue(e, n)]
+    now = '%s#%d' % (ctx.func.params[1], g.entry.frame.id)
+    due_kind = None        # 'le': ts <= now is due;  'lt': only ts < now
+    if spawns and not loops:
+        due_kind = _bisect_cut(e, rep, g, ctx, where)
+        if due_kind is None:
+            return
+        _wait_ready_part(e, rep, due_kind)
+        return
     if not spawns or not loops:
         rep.error('anchor vanished: dispatch in _check_ready')
         return
-    now = '%s#%d' % (ctx.func.params[1], g.entry.frame.id)
     lp = loops[0]
     # sites that decide that an entry is dispatched: the spawn itself when
     # it sits in the scan loop, else the advance of the prefix index
@@ -520,7 +537,11 @@ def q6(e: Engine, rep: Report):
         st = fx.at(n) or frozenset()
         # normalised form of `now >= timestamp` is `timestamp <= now`
         due = [k for p, k in st if p and k.endswith(' <= ' + now)]
-        rep.check(bool(due), 'Q6', where, 'dispatch only when due',
+        strict = [k for p, k in st if p and k.endswith(' < ' + now)]
+        if due or strict:
+            due_kind = 'le' if due and due_kind != 'lt' else 'lt'
+        rep.check(bool(due or strict), 'Q6', where,
+                  'dispatch only when due',
                   'an entry is selected for dispatch without `now >= '
                   'timestamp` holding for it: the message is attempted '
                   'before the time the backoff policy chose', loc=n.loc(),
@@ -544,6 +565,41 @@ def q6(e: Engine, rep: Report):
                       'later entries advance the dropped prefix past it and '
                       'it is removed from the timetable unattempted',
                       loc=t.loc(), reason='break on the not-due branch')
+    _wait_ready_part(e, rep, due_kind)
+
+
+def _bisect_cut(e: Engine, rep: Report, g, ctx, where):
+    """The due prefix computed by bisection instead of a scan: the cut is
+    bisect(self.queued, KEY).  Entries are (timestamp, id) pairs, so by tuple
+    ordering a 1-tuple KEY (now,) sorts before every (now, id): only entries
+    with timestamp < now are cut off."""
+    now = ctx.func.params[1]
+    cuts = [n for n in g.nodes if n.kind == 'call' and
+            e.call_name(n) in ('bisect', 'bisect_left', 'bisect_right')
+            and n.ast.args and
+            canon(n.ast.args[0], n.frame) == 'self.queued']
+    if not cuts:
+        rep.error('anchor vanished: dispatch in _check_ready')
+        return None
+    kind = None
+    for n in cuts:
+        rep.evaluations += 1
+        key = n.ast.args[1] if len(n.ast.args) > 1 else None
+        if isinstance(key, ast.Tuple) and len(key.elts) == 1 and \
+                isinstance(key.elts[0], ast.Name) and key.elts[0].id == now:
+            kind = 'lt'
+            rep.ok('Q6', where, 'dispatch only when due',
+                   reason='bisection key (now,) cuts off entries with '
+                   'timestamp < now', loc=n.loc())
+        else:
+            rep.error('cannot decide the due predicate of the bisection key '
+                      '`%s` in _check_ready' % (ast.unparse(key) if key
+                                                else '?'))
+            return None
+    return kind
+
+
+def _wait_ready_part(e: Engine, rep: Report, due_kind):
     # _wait_ready
     ctx = e.method_ctx(QUEUE, '_wait_ready')
     g = e.build(ctx, raises=lambda b, n, r: {'builtins.IndexError'}
@@ -551,6 +607,7 @@ def q6(e: Engine, rep: Report):
     fx = e.facts(g)
     where = ctx.func.qname
     rep.functions.add(where)
+    now = '%s#%d' % (ctx.func.params[1], g.entry.frame.id)
     waits = [n for n in g.nodes if n.kind == 'call' and
              e.call_name(n) == 'wait' and
              canon(n.ast.func.value, n.frame) == 'self.wake']
@@ -568,6 +625,26 @@ def q6(e: Engine, rep: Report):
                       '(first due time - now): it wakes too late or too '
                       'early' % ast.unparse(a), loc=n.loc(),
                       reason='timeout = first_timestamp - now')
+            # the due predicate of _check_ready and the sleep predicate
+            # here leave no gap: an entry that is not dispatched is slept
+            # for
+            st = fx.at(n) or frozenset()
+            sleeps_gt = any(p and k.startswith(now + ' < ') for p, k in st)
+            sleeps_ge = any(p and k.startswith(now + ' <= ') for p, k in st)
+            if due_kind is not None and (sleeps_gt or sleeps_ge):
+                rep.evaluations += 1
+                gap = due_kind == 'lt' and sleeps_gt and not sleeps_ge
+                rep.check(not gap, 'Q6', where,
+                          'an entry that is not yet dispatched is slept for',
+                          '_check_ready dispatches only entries with '
+                          'timestamp < now while _wait_ready sleeps only '
+                          'for timestamp > now: an entry due exactly now is '
+                          'neither dispatched nor waited for, the scheduler '
+                          'loop spins without yielding and the message is '
+                          'never attempted', loc=n.loc(),
+                          reason='due predicate (timestamp <= now) is the '
+                          'complement of the sleep predicate (timestamp > '
+                          'now)')
         else:
             inh = any(sc.kind == 'handler' and any(
                 'IndexError' in t for t in (sc.data['node'].extra.get(
@@ -578,3 +655,34 @@ def q6(e: Engine, rep: Report):
                       'are not attempted until something else wakes it',
                       loc=n.loc(), reason='inside the IndexError (empty '
                       'timetable) arm')
+
+
+def q8(e: Engine, rep: Report):
+    """A failing set_recipients_delivered (known finding: it raises TypeError
+    on accumulate-and-filter backends from the second partial round on) must
+    not strand the message: every way out of that call still un-marks and
+    re-queues the id."""
+    ctx = e.method_ctx(QUEUE, '_retry_later')
+    g = e.build(ctx)
+    where = ctx.func.qname
+    marks = [n for n in g.nodes if n.kind == 'call' and
+             e.call_name(n) == 'set_recipients_delivered']
+    for m in marks:
+        rep.evaluations += 1
+        pth = dataflow.find_path(
+            g, m, lambda x: x is g.exit or x is g.raise_exit,
+            avoid=lambda x: x.kind in ('call', 'call_enter') and
+            e.call_name(x) == '_add_queued',
+            edge_ok=lambda a, l, s2: not isinstance(l, tuple) or a is m
+            or a.kind not in ('call', 'call_enter'))
+        rep.check(pth is None, 'Q8', where,
+                  're-queue on every way out of set_recipients_delivered',
+                  '_retry_later can leave (normally or by an exception of '
+                  'the storage call) after the marks were attempted without '
+                  'calling _add_queued: the id stays in active_ids, is in '
+                  'no timetable and every later announcement of it is '
+                  'refused - the stored message is never attempted again',
+                  loc=m.loc(), witness=dataflow.render_path(pth, 12)
+                  if pth else None,
+                  reason='_add_queued on the normal and the exceptional '
+                  'continuation')
